@@ -54,7 +54,7 @@ def Spec.allowed (env : Env) (k : Kind) (m : Map String) (op : Op) (o : Option O
     Option String :=
   match op, o with
   | .put n ct tok replace, some (.ok e) =>
-    let hk := match ct with | some c => hkOfCtype c | none => hkOfName n
+    let hk := handlerFor ct n      -- the type the member is read back as (by extension if it names one)
     if !env.valid hk tok then some "C14:invalid-body-stored"
     else if e ≠ env.norm hk tok then some "C14:stored-not-normal-form"
     else if (match replace with | some r => decide (m[n]? ≠ some r) | none => false) then
@@ -64,7 +64,7 @@ def Spec.allowed (env : Env) (k : Kind) (m : Map String) (op : Op) (o : Option O
              | none => false) then some "C06:duplicate-uid-accepted"
     else none
   | .put n ct tok _, some (.dupUid _) =>
-    let hk := match ct with | some c => hkOfCtype c | none => hkOfName n
+    let hk := handlerFor ct n      -- the type the member is read back as (by extension if it names one)
     (match env.uid hk tok with
      | some u => if heldByOther env k m n u then none else some "C06:refused-without-holder"
      | none => some "C06:refused-without-uid")
